@@ -1,1 +1,63 @@
-Require Import TV.Proofs.CircuitOpsProofs.
+(* C17 -- Circuit behaves like a flattened stim.Circuit under every container operation.
+   Statements only; proofs live in Proofs/CircuitOpsProofs.v.
+
+   `t_run h` is the state (heap of stim.Circuit objects, tsim handles, user-held stim objects) after the
+   operation history h, computed by running the effect summaries REGENERATED from src/tsim/circuit.py
+   (gen/Gen_circuit_effects.v) with Stim's operations as modelled in Spec/StimCircuit.v.
+   `ref_run h` is the stim-only reference: the same operations on plain circuit values, never flattened,
+   never merged.  Index-based operations (pop, slicing) address a REPEAT-free representative of the
+   reference circuit, which is only determined up to Stim's merging (see Model/CircuitOps.v: ref_step). *)
+From Coq Require Import ZArith List String Bool.
+Import ListNotations.
+Require Import TV.Spec.StimCircuit TV.Model.CircuitEffects TV.gen.Gen_circuit_effects TV.Model.CircuitOps
+               TV.Proofs.StimCircuitProofs TV.Proofs.CircuitOpsProofs.
+
+(* after ANY history, no tsim Circuit wraps a circuit containing a REPEAT block *)
+Theorem C17_flat : forall h v, v < List.length (tv (t_run h)) -> is_flat (tval (t_run h) v) = true.
+Proof. exact flat_always. Qed.
+
+(* after ANY history, no two handles / user-held stim objects share a heap object (so the result of +, *,
+   slicing, copy, stim_circuit, without_* never aliases an operand), and no handle dangles *)
+Theorem C17_alias : forall h,
+  NoDup (tv (t_run h) ++ sv (t_run h)) /\
+  forall a, In a (tv (t_run h) ++ sv (t_run h)) -> a < List.length (heap_of (t_run h)).
+Proof. exact alias_never. Qed.
+
+(* every method of the class outside the container operations, and integer indexing, leave the whole state
+   (heap and handles) unchanged -- given that the callees listed in `passes_live_to` do not mutate *)
+Theorem C17_observers : forall s k v, t_step (OObserve k v) s = s.
+Proof. exact observers_identity. Qed.
+Theorem C17_observers_getitem : forall s v i, t_step (OGetItem v i) s = s.
+Proof. exact getitem_identity. Qed.
+
+(* refinement: for histories whose inputs contain no SHIFT_COORDS there is a reference run such that every
+   wrapped circuit is REPEAT-free and equals the reference circuit up to unrolling and merging, and every
+   user-held stim object likewise *)
+Theorem C17_refine_partial : forall h, forallb noshift_op h = true ->
+  exists r, ref_run h rst0 r /\ refines (t_run h) r.
+Proof. exact refine_partial. Qed.
+
+(* ... i.e. its canonical form is Stim's flattened() of the reference circuit *)
+Theorem C17_refine_partial_flattened : forall h, forallb noshift_op h = true ->
+  exists r, ref_run h rst0 r /\ refines (t_run h) r /\
+    forall v, v < List.length (tv (t_run h)) -> fuse (flatten0 (tval (t_run h) v)) = flattened_l (nth v (rt r) []).
+Proof. exact refine_partial_flattened. Qed.
+
+(* hence equal measurement / detector / observable / qubit / tick counts (Stim's counters on the unflattened
+   reference, loops multiplying) *)
+Theorem C17_counts : forall s r, refines s r ->
+  forall v, v < List.length (tv s) -> counts_c (tval s v) = counts_c (nth v (rt r) []).
+Proof. exact refines_counts. Qed.
+
+(* the unrestricted statement is FALSE of the code: flattening on entry removes SHIFT_COORDS, so coordinates
+   of later-appended DETECTOR / QUBIT_COORDS differ from Stim's.  Witness:
+   Circuit("SHIFT_COORDS(1)\nM 0").append_from_stim_program_text("DETECTOR(0) rec[-1]") *)
+Theorem C17_refine_refuted : exists h, forall r, ref_run h rst0 r -> ~ refines (t_run h) r.
+Proof. exact refine_refuted. Qed.
+
+(* non-vacuity: a history with nested-free REPEAT text, a REPEAT-containing stim operand, +=, *, pop, slicing,
+   self-append and without_annotations satisfies the hypothesis of C17_refine_partial *)
+Example C17_hypothesis_inhabited :
+  forallb noshift_op example_history = true /\ List.length (tv (t_run example_history)) = 4 /\
+  List.length (flatten0 (tval (t_run example_history) 0)) = 14.
+Proof. exact example_history_ok. Qed.
